@@ -114,6 +114,15 @@ def oracle_case(case) -> list:
     """C14 on what the HTTP responses carried; [] = holds"""
     if case.get("kind") == "manifest":
         return manifest_oracle(case)
+    if case.get("kind") == "reject":
+        import appboot
+        _, c = app()
+        try:
+            with E.time_limit(20), appboot.Clock(CLOCKS[0]):
+                st = c.get(case["url"]).status_code
+        except E.NonTermination:
+            st = "no answer within 20 s"
+        return [] if st == 400 else [f"GET {case['url']} -> {st}"]
     f = fetch_run(case)
     if any(st != 200 for st in f["status"]):
         return [f"segment requests answered {f['status']}"]
@@ -254,6 +263,7 @@ def run(ctx) -> Channel:
         if (common.CORPUS / "C14").is_dir() else []
     cases += [gen_case(rng, ctx.thorough) for _ in range(ctx.scale(45, 700))]
     cases += [gen_manifest_case(rng) for _ in range(ctx.scale(25, 300))]
+    _reject_cases(ch)
     lines, jobs = [], []
     for case in cases:
         ch.evaluations += 1
@@ -267,7 +277,7 @@ def run(ctx) -> Channel:
             ch.errors.append(f"{type(e).__name__}: {e} on {json.dumps(case)[:200]}")
     if lines:
         try:
-            out = common.run_driver(lines)
+            out = E.run_driver(lines)
         except Exception as e:
             ch.errors.append(f"driver: {e}")
             return ch
@@ -276,6 +286,27 @@ def run(ctx) -> Channel:
                 ch.disagreements.append({"channel": "events_e2e", "what": what, "case": case,
                                          "model": mo[:300], "impl": impl[:300]})
     return ch
+
+
+def _reject_cases(ch):
+    """D13b regression guard: interval < 1 is outside the property's quantifier; the server must
+    answer (400 since fix a993bc6) instead of looping for ever"""
+    import appboot
+    _, c = app()
+    for url in (f"/dash/vod/{STREAM}/{FILE}/1.m4v?events=ping&ping__interval=0",
+                f"/dash/vod/{STREAM}/{FILE}/1.m4v?events=scte35&scte35__interval=-5",
+                f"/dash/live/{STREAM}/hand_made.mpd?events=ping&ping__interval=0&ping__inband=0&ping__count=3"):
+        ch.evaluations += 1
+        ch.count("reject:interval<1")
+        try:
+            with E.time_limit(20), appboot.Clock(CLOCKS[0]):
+                st = c.get(url).status_code
+        except E.NonTermination:
+            st = "no answer within 20 s"
+        if st != 400:
+            ch.oracle_failures.append({"channel": "events_e2e", "case": {"kind": "reject", "url": url},
+                                       "failures": [f"GET {url} -> {st} (an interval < 1 must be refused: "
+                                                    "the event loop cannot terminate)"]})
 
 
 def _segment_case(ch, case, lines, jobs):
